@@ -16,6 +16,7 @@ decided. Decided statically are the storage layout and plumbing every write/read
  R5  text: the writer's String mapping, the dtype reader and the read conversion use the same variable-length type
  R6  array handles keep nothing about the data set (shared stateless-handle rule)
 """
+import ast
 from .common import Ctx, describe_path
 from nixsa.px import explore, Config
 from nixsa.px_core import Budget
@@ -36,6 +37,69 @@ def comp_decision(p, param="compression"):
     return (yes[0] if yes else None), no
 
 
+def is_string_type(M, t):
+    """is the term one of the values DataType.String may have (the class assigns it under a NumPy-version test)"""
+    c = M.classes.get("DataType")
+    if c is None or not isinstance(t, tuple):
+        return False
+    if t[:3] == ("enum", "DataType", "String"):
+        return True
+    names = set()
+    for e in c.attr_alts.get("String", []):
+        if isinstance(e, ast.Attribute):
+            names.add(e.attr)
+        elif isinstance(e, ast.Name):
+            names.add(e.id)
+    return t[0] == "ext" and t[1].split(".")[-1] in names
+
+
+def shape_guard_table(M, rep, R4, oc=None):
+    """create_data_array(shape=, data=): a shape argument that differs from the data's shape is refused BEFORE the array is
+    created (the write that would fail comes after the creation). Shared with C12."""
+    if oc is None:
+        oc = Ctx(M, coarse=False)
+        oc.cfg.compose = False
+        oc.cfg.opaque[oc.member("DataArray", "create_new").qual] = ("obj", "DataArray")
+    f = oc.member("Block", "create_data_array")
+    if f is None:
+        rep.bad(R4, "Block.create_data_array", "required mechanism not found")
+        return
+    # the shape argument must equal the shape of the data exactly (no broadcasting): evaluate the extracted guard
+    allp = oc.paths(f, "Block", max_paths=40000)
+    for shp, dshp in (((4,), (4,)), ((4, 4), (4, 4)), ((4,), (4, 4)), ((4, 4), (4,)), ((3,), (3, 3, 3)), ((4, 5), (5, 4)), ((1, 1, 1), (10,)), ((2, 3), (2, 3))):
+        def leaf(t, shp=shp, dshp=dshp):
+            if t == ("param", "shape"):
+                return shp
+            if t[0] == "attr" and t[2] == "shape" and "data" in params_of(t[1]):
+                return dshp
+            return NOTHING
+        te = TermEval(leaf)
+        created = refused = 0
+        for p in allp:
+            rel = [(a, v) for a, v in p.decisions if "shape" in params_of(a) and any(
+                x and x[0] == "attr" and x[2] == "shape" and "data" in params_of(x[1]) for x in subterms(a))]
+            if not rel:
+                continue
+            try:
+                if not all(te.atom(a) == v for a, v in rel):
+                    continue
+            except Unknown as e:
+                raise AnalysisError("C01.R4: the shape check of create_data_array depends on an unmodelled condition (%s)" % e)
+            except (TypeError, ValueError):
+                continue
+            if any(e.kind == "ocall" and e.op.endswith("DataArray.create_new") for e in p.events):
+                created += 1
+            elif p.terminal[0] == "raise" and p.terminal[1].cls == "ValueError":
+                refused += 1
+        key = "create_data_array(shape=%r, data of shape %r)" % (shp, dshp)
+        if shp == dshp:
+            rep.check(R4, key, created > 0, "a matching shape argument is refused", site=f.file + ":%d" % f.node.lineno)
+        else:
+            rep.check(R4, key, created == 0 and refused > 0, "a shape argument %r that differs from the data's shape %r is accepted (%d creating "
+                      "path(s)): the array is created with the wrong extent and the following write fails, leaving the half-made array behind" % (
+                          shp, dshp, created), site=f.file + ":%d" % f.node.lineno)
+
+
 def run(M, rep, tier, only=None):
     ctx = Ctx(M, coarse=False)
     ctx.cfg.compose = False
@@ -51,6 +115,10 @@ def run(M, rep, tier, only=None):
     R5 = rep.rule("C01.R5", "text is stored, reported and read back with the same variable-length type", floor=3,
                   technique="constant agreement across writer, dtype reader and read conversion")
     R6 = rep.rule("C01.R6", "array handles keep nothing about the data set", floor=1, technique="stateless-handle classification (see C02.R7)")
+    R7 = rep.rule("C01.R7", "the hdf5 layer decides 'no region given' by identity with None (assigning to index 0 is not a whole-array write)",
+                  floor=2, technique="decision atoms on the region parameter of H5DataSet.read_data/write_data (shared with C06.R1)")
+    R8 = rep.rule("C01.R8", "array classes never transfer element values through the raw h5py object (one conversion funnel)", floor=20,
+                  technique="who-may-call over resolved operations (shared with C15.R1)")
 
     # ---------------------------------------------------------------- R1
     # (a) File.__init__
@@ -181,7 +249,8 @@ def run(M, rep, tier, only=None):
             if e.key is None or e.key.t != ("param", "name"):
                 bad = (p, "the dataset is not created under the given name")
             dt = kw.get("dtype")
-            isstr = [v for a, v in p.decisions if a[0] == "eq" and ("param", "dtype") in a[1:3] and "str" in show(a).lower()]
+            isstr = [v for a, v in p.decisions if a[0] == "eq" and ("param", "dtype") in a[1:3] and
+                     any(is_string_type(M, o) for o in a[1:3])]
             if dt is None:
                 bad = (p, "no element type is given")
             elif isstr and isstr[0] is True:
@@ -331,40 +400,7 @@ def run(M, rep, tier, only=None):
                     bad = (p, "the array is created with a shape that derives neither from `shape` nor from the data")
         rep.check(R4, "Block.create_data_array", bad is None and n > 0, bad[1] if bad else "no path writes the given data", site=f.file + ":%d" % f.node.lineno,
                   detail=describe_path(bad[0], 30) if bad else None)
-        # the shape argument must equal the shape of the data exactly (no broadcasting): evaluate the extracted guard
-        allp = oc.paths(f, "Block", max_paths=40000)
-        for shp, dshp in (((4,), (4,)), ((4, 4), (4, 4)), ((4,), (4, 4)), ((4, 4), (4,)), ((3,), (3, 3, 3)), ((4, 5), (5, 4)), ((1, 1, 1), (10,)), ((2, 3), (2, 3))):
-            def leaf(t, shp=shp, dshp=dshp):
-                if t == ("param", "shape"):
-                    return shp
-                if t[0] == "attr" and t[2] == "shape" and "data" in params_of(t[1]):
-                    return dshp
-                return NOTHING
-            te = TermEval(leaf)
-            created = refused = 0
-            for p in allp:
-                rel = [(a, v) for a, v in p.decisions if "shape" in params_of(a) and any(
-                    x and x[0] == "attr" and x[2] == "shape" and "data" in params_of(x[1]) for x in subterms(a))]
-                if not rel:
-                    continue
-                try:
-                    if not all(te.atom(a) == v for a, v in rel):
-                        continue
-                except Unknown as e:
-                    raise AnalysisError("C01.R4: the shape check of create_data_array depends on an unmodelled condition (%s)" % e)
-                except (TypeError, ValueError):
-                    continue
-                if any(e.kind == "ocall" and e.op.endswith("DataArray.create_new") for e in p.events):
-                    created += 1
-                elif p.terminal[0] == "raise" and p.terminal[1].cls == "ValueError":
-                    refused += 1
-            key = "create_data_array(shape=%r, data of shape %r)" % (shp, dshp)
-            if shp == dshp:
-                rep.check(R4, key, created > 0, "a matching shape argument is refused", site=f.file + ":%d" % f.node.lineno)
-            else:
-                rep.check(R4, key, created == 0 and refused > 0, "a shape argument %r that differs from the data's shape %r is accepted (%d creating "
-                          "path(s)): the array is created with the wrong extent and the following write fails, leaving the half-made array behind" % (
-                              shp, dshp, created), site=f.file + ":%d" % f.node.lineno)
+        shape_guard_table(M, rep, R4, oc)
 
     # ---------------------------------------------------------------- R5
     if ds is not None:
@@ -399,5 +435,8 @@ def run(M, rep, tier, only=None):
 
     # ---------------------------------------------------------------- R6
     n = stateless.run(M, rep, R6, only_classes={"H5DataSet", "H5Group", "DataSet", "DataArray"})
+    from . import c06, c15
+    c06.layer_region_rule(M, rep, R7)
+    c15.raw_value_access_rule(Ctx(M).cg, rep, R8)
     if not n:
         rep.bad(R6, "array handles", "required mechanism not found")
